@@ -969,10 +969,9 @@ func Div(y tensor.Tensor, a tensor.Tensor, b tensor.Tensor) (gctx *GradContext) 
 				gradFn: func() (o tensor.Tensor, err error) {
 					gy := y.Gradient()
 
-					n := a.Scale(-1)
-					d := b.Pow(2)
-
-					gb, err := n.Div(d)
+					// -(a/b)/b rather than -a/b^2, whose denominator leaves the
+					// floating-point range long before the quotient does
+					gb, err := y.Scale(-1).Div(b)
 					if err != nil {
 						return
 					}
